@@ -66,11 +66,12 @@ type srvKey struct {
 	Mode   string // none | force | ca   (ca = trustedCaFile only: the force flag must be implied)
 	Cert   string // random | good | othername | otherca
 	Mux    bool
-	Scopes bool // auth.additionalScopes = HeartBeats, NewWorkConns
+	Scopes bool   // auth.additionalScopes = HeartBeats, NewWorkConns
+	Auth   string // "" = token | empty (token method, no token on either side) | oidc (no token either)
 }
 
 func (k srvKey) String() string {
-	return fmt.Sprintf("mode=%s,cert=%s,mux=%v,scopes=%v", k.Mode, k.Cert, k.Mux, k.Scopes)
+	return fmt.Sprintf("mode=%s,cert=%s,mux=%v,scopes=%v,auth=%s", k.Mode, k.Cert, k.Mux, k.Scopes, k.Auth)
 }
 
 type pooledServer struct {
@@ -103,14 +104,27 @@ func serverFor(k srvKey) (*pooledServer, error) {
 	poolMu.Unlock()
 	ps.once.Do(func() {
 		rng := run.RandFor("server|"+k.String(), 0)
-		ps.Token = newMarker(rng)
+		if k.Auth == "" {
+			ps.Token = newMarker(rng)
+		}
+		if k.Auth == "oidc" {
+			if ps.Err = ensureIssuer(); ps.Err != nil {
+				return
+			}
+		}
 		for try := 0; try < 5; try++ { // another process may grab a port between allocation and bind
 			ports := pa.Block(4)
 			ps.Bind, ps.Quic, ps.Vhost, ps.TMux = ports[0], ports[1], ports[2], ports[3]
 			var sb strings.Builder
 			fmt.Fprintf(&sb, "bindAddr = \"127.0.0.1\"\nproxyBindAddr = \"127.0.0.1\"\nbindPort = %d\nkcpBindPort = %d\nquicBindPort = %d\n", ps.Bind, ps.Bind, ps.Quic)
 			fmt.Fprintf(&sb, "vhostHTTPPort = %d\ntcpmuxHTTPConnectPort = %d\n", ps.Vhost, ps.TMux)
-			fmt.Fprintf(&sb, "auth.token = \"%s\"\nallowPorts = [{start=15000,end=15999}]\nuserConnTimeout = 10\n", ps.Token)
+			switch k.Auth {
+			case "":
+				fmt.Fprintf(&sb, "auth.token = \"%s\"\n", ps.Token)
+			case "oidc":
+				fmt.Fprintf(&sb, "auth.method = \"oidc\"\nauth.oidc.issuer = \"%s\"\nauth.oidc.audience = \"%s\"\n", oidc.URL, oidcAudience)
+			}
+			sb.WriteString("allowPorts = [{start=15000,end=15999}]\nuserConnTimeout = 10\n")
 			if k.Scopes {
 				sb.WriteString("auth.additionalScopes = [\"HeartBeats\", \"NewWorkConns\"]\n")
 			}
@@ -179,13 +193,25 @@ type cliTLS struct {
 	ServerName string // "" = default (server address)
 }
 
-func clientCommonTOML(port int, token, user, protocol string, mux bool, scopes bool, poolCount int, t cliTLS, failExit bool) string {
+// clientAuth renders the auth part of a frpc configuration that matches this server.
+func (ps *pooledServer) clientAuth() string {
+	switch ps.Key.Auth {
+	case "empty":
+		return ""
+	case "oidc":
+		return fmt.Sprintf("auth.method = \"oidc\"\nauth.oidc.clientID = \"%s\"\nauth.oidc.clientSecret = \"%s\"\nauth.oidc.audience = \"%s\"\nauth.oidc.tokenEndpointURL = \"%s/token\"\n",
+			oidcClientID, oidcClientSecret, oidcAudience, oidc.URL)
+	}
+	return fmt.Sprintf("auth.token = \"%s\"\n", ps.Token)
+}
+
+func clientCommonTOML(port int, auth, user, protocol string, mux bool, scopes bool, poolCount int, t cliTLS, failExit bool) string {
 	var sb strings.Builder
 	fmt.Fprintf(&sb, "serverAddr = \"127.0.0.1\"\nserverPort = %d\nloginFailExit = %v\n", port, failExit)
 	if user != "" {
 		fmt.Fprintf(&sb, "user = \"%s\"\n", user)
 	}
-	fmt.Fprintf(&sb, "auth.token = \"%s\"\n", token)
+	sb.WriteString(auth)
 	if scopes {
 		sb.WriteString("auth.additionalScopes = [\"HeartBeats\", \"NewWorkConns\"]\n")
 	}
